@@ -1,6 +1,9 @@
 import UPVerif.Core.Sexp
 import UPVerif.Drv.C33
 import UPVerif.Drv.Den
+import UPVerif.Drv.C09
+import UPVerif.Drv.C05
+import UPVerif.Drv.C04
 import UPVerif.Drv.C27
 import UPVerif.Drv.C37
 import UPVerif.Drv.C19
@@ -73,6 +76,9 @@ def handlers : List (String × (Sexp → Sexp)) := [
   ("C19", Drv.C19.handle),
   ("C37", Drv.C37.handle),
   ("C27", Drv.C27.handle),
+  ("C04", Drv.C04.handle),
+  ("C05", Drv.C05.handle),
+  ("C09", Drv.C09.handle),
   ("ECHO", Drv.Den.handleEcho),
   ("DEN", Drv.Den.handleDen)
 ]
